@@ -92,15 +92,16 @@ def decBranch (s : Sch) : Dec → List String
 def parseResp (j : Json) : String × Resp :=
   (getStr j "key",
    { headers := (getArr j "headers").map parseHdr,
-     content := (getArr j "content").map (fun c => (getStr c "mime", ({ schema := parseOSch c "schema" } : MediaType))) })
+     content := (getArr j "content").map (fun c => (getStr c "mime", ({ schema := parseOSch c "schema" } : MediaType))),
+     resolved := !getBool j "unresolved" })
 
 def errStr : Err → String
-  | .statusNotSupported => "status" | .hdrMissing n => "hdrMissing:" ++ n | .hdrDecode n => "hdrDecode:" ++ n
+  | .statusNotSupported => "status" | .respUnresolved => "unresolved" | .hdrMissing n => "hdrMissing:" ++ n | .hdrDecode n => "hdrDecode:" ++ n
   | .hdrSchema n => "hdrSchema:" ++ n | .hdrPanic _ => "panic" | .ctUndeclared => "ct" | .bodyRead => "bodyRead"
   | .bodyDecode => "bodyDecode" | .bodySchema => "bodySchema"
 
 def errBranch : Err → String
-  | .statusNotSupported => "err.status" | .hdrMissing _ => "err.hdrMissing" | .hdrDecode _ => "err.hdrDecode"
+  | .statusNotSupported => "err.status" | .respUnresolved => "err.unresolved" | .hdrMissing _ => "err.hdrMissing" | .hdrDecode _ => "err.hdrDecode"
   | .hdrSchema _ => "err.hdrSchema" | .hdrPanic _ => "err.hdrPanic" | .ctUndeclared => "err.ct" | .bodyRead => "err.bodyRead"
   | .bodyDecode => "err.bodyDecode" | .bodySchema => "err.bodySchema"
 
@@ -137,13 +138,14 @@ def handle (j : Json) : Json :=
     method := getStr j "method", status := getInt j "status",
     responses := (getArr j "responses").map parseResp,
     hdrs := (getArr j "hdrs").map (fun p => match p with
-      | .arr a => (asStr (a.getD 0 .null), asStr (a.getD 1 .null)) | _ => ("", "")),
+      | .arr a => (asStr (a.getD 0 .null), if a.size ≥ 2 then some (asStr (a.getD 1 .null)) else none)
+      | _ => ("", none)),
     body := getStr j "body", readFails := getBool j "readFails", bodyDec := parseDec (getD j "bodyDec" .null) }
   let out := validateResponse canon genReg o i
   let spec := acceptB canon genReg o i
   -- what the model's header decoder makes of every declared, schema-described header that the response carries
   -- (compared with the real decoder on every case)
-  let hdrDecs : List Json := i.responses.flatMap (fun kr =>
+  let hdrDecs : List Json := (i.responses.filter (fun kr => kr.2.resolved)).flatMap (fun kr =>
     kr.2.headers.filterMap (fun h => match hdrDec canon i.hdrs h with
       | some d => some (Json.arr #[Json.str (kr.1 ++ "/" ++ h.name), decJson d])
       | none => none))
@@ -173,8 +175,9 @@ def handle (j : Json) : Json :=
        ((checkedHeaders r).flatMap (fun h => match h.schema, hdrDec canon i.hdrs h with
           | some s, some d =>
             decBranch s d ++ (if h.explode then ["hdr.explode"] else []) ++
+            (if lookup (canon h.name) i.hdrs == some none then ["hdr.no_values"] else []) ++
             (match s.core.ty, lookup (canon h.name) i.hdrs with
-             | .object, some raw =>
+             | .object, some (some raw) =>
                (match propsFromString h.explode raw with
                 | some pairs => if emptyNameCorner s pairs then ["dec.empty_name_corner"] else []
                 | none => ["dec.obj_malformed"])
